@@ -269,6 +269,7 @@ func strGsubTable(L *LState, str string, repl *LTable, matches []*pm.MatchData) 
 			value = L.GetField(repl, str[match.Capture(idx):match.Capture(idx+1)])
 		}
 		if !LVIsFalse(value) {
+			checkGsubReplacement(L, value)
 			infoList = append(infoList, replaceInfo{[]int{match.Capture(0), match.Capture(1)}, LVAsString(value)})
 		}
 	}
@@ -297,10 +298,19 @@ func strGsubFunc(L *LState, str string, repl *LFunction, matches []*pm.MatchData
 		L.Call(nargs, 1)
 		ret := L.reg.Pop()
 		if !LVIsFalse(ret) {
+			checkGsubReplacement(L, ret)
 			infoList = append(infoList, replaceInfo{[]int{start, end}, LVAsString(ret)})
 		}
 	}
 	return strGsubDoReplace(str, infoList)
+}
+
+// checkGsubReplacement: a table entry or function result that is neither false/nil nor a string or number is
+// an error (lstrlib add_value), not an empty replacement.
+func checkGsubReplacement(L *LState, v LValue) {
+	if !LVCanConvToString(v) {
+		L.RaiseError("invalid replacement value (a %s)", v.Type().String())
+	}
 }
 
 type strMatchData struct {
